@@ -11,6 +11,7 @@ of every history (after every step on a sample), as are the rules.
 Oracle (independent of the Lean model): a plain dict-of-dicts reference implementation of the property text.
 """
 import copy
+import gc
 import hashlib
 import json
 import marshal
@@ -25,22 +26,25 @@ from harness import core
 META = {
     "ops": "hist",
     "driver": "drv_lexstate",
+    "translators": [],
     "technique": "Lean 4 proof (refinement to two independent maps, induction over all call histories, heap of dict "
-                 "objects for aliasing) + differential correspondence on random histories in subprocesses",
-    "level_text": "Kernel-checked for ALL histories/states: add/update/remove refine the two-map specification, getLemma "
-                  "returns what is stored, lang omitted = current language, unknown lang raises before any change, rules "
-                  "never change (hold); other-lexicon / other-entries frame, add refinement and whole-history refinement "
-                  "hold for histories that never store one dict object under two keys and are refuted (with witness) "
-                  "otherwise; new terminals see the new entry / removed lemma is unknown hold when the changed lexicon is "
-                  "the current one (refuted otherwise: Terminal.setLemma reads the current lexicon). Tie: model vs the real "
+                 "objects, no-sharing invariant) + differential correspondence on random histories in subprocesses",
+    "level_text": "Kernel-checked for ALL histories/states: no history stores one dict object under two keys (invariant, "
+                  "since 3c7823e); add/update/remove refine the two-map specification; whole-history refinement; other "
+                  "lexicon / other entries untouched (same object, same content); getLemma returns what is stored (a new "
+                  "object for a new lemma); lang omitted = current language; unknown lang raises before any change; rules "
+                  "never change; a terminal reads the lexicon of its own language whatever is current (since 8586a6a); new "
+                  "terminals see the new entry / a removed lemma is unknown hold for lemmas without œ/æ (refuted with a "
+                  "ligature witness: Terminal.setLemma looks the lemma up as oe/ae). Tie: model vs the real "
                   "Lexicon.py/Terminal construction on random histories, value + changed-slice + object identity + key "
-                  "order per step, deep hash of everything else per history.",
+                  "order per step, frame of everything else per history.",
     "level_note": "Trusted: Lean kernel; the model/implementation correspondence (differential, sampled); the harness "
                   "inflector used to predict the realized form from the rules JSON (simple tables only). Not modelled: "
                   "non-dict infos (e.g. {'w': None}), non-string lemmas, mutation of a stored dict by the caller outside "
-                  "the API, terminal categories other than N/A/V in the tie.",
+                  "the API (the copy made by addToLexicon is shallow: category values stay shared with the caller; "
+                  "Lexicon.py never mutates a value), terminal categories other than N/A/V in the tie.",
     "rule": "random histories (4-16 calls) over 18 existing + 7 fresh lemmas, both starting languages; strata: plain, "
-            "aliasing (a dict object passed twice / a stored entry passed again), malformed (lang='de', empty single "
+            "aliasing (the same caller dict passed again / a stored entry passed again), malformed (lang='de', empty single "
             "dict, load('de')); non-trivial = history with a mutating call whose canonical (history, answers) pair is new",
     "assumptions": ["values stored under a category are opaque to Lexicon.py (dict.update is shallow)",
                     "the caller does not mutate a dict it has passed, except through the API"],
@@ -51,8 +55,6 @@ META = {
 
 FRESH = ["zorgly", "blixer", "quaxy", "mibler", "zœrgy", "zoergy", "blæxer"]
 CATS = ["N", "A", "V"]
-SIG_ALIAS = "alias:add-existing:mutates-dict-object-stored-under-another-key"
-SIG_TLANG = "terminal:lang!=current:entry-read-from-current-lexicon"
 SIG_LIG = "terminal:ligature-lemma:looked-up-as-oe/ae"
 
 
@@ -119,6 +121,8 @@ def expected_form(rules, tl, cat, lemma, val):
         if tl == "en":
             ps = c["t"].get("ps")
             return stem + ps if isinstance(ps, str) else None
+        if val.get("pat") == ["réfl"]:          # essentially reflexive: a pronoun is added
+            return None
         p = c["t"].get("p")
         if not isinstance(p, list) or len(p) != 6 or not isinstance(p[3], str):
             return None
@@ -165,7 +169,7 @@ class NullErr:
 
 
 class Impl:
-    def __init__(self, pool_seed):
+    def __init__(self, pool_seed, pool=None):
         core.ensure_repo_on_path()
         sys.stderr = NullErr()
         import pyrealb
@@ -191,7 +195,11 @@ class Impl:
             return r
         self.T.getLemma = getLemma
         self.snapshot()
-        self.build_pool(random.Random(pool_seed))
+        if pool is not None:             # replay: the pool is what the history mentions
+            self.pool = sorted(pool)
+            self.after_pool()
+        else:
+            self.build_pool(random.Random(pool_seed))
 
     # ---- pristine state
     def snapshot(self):
@@ -222,10 +230,20 @@ class Impl:
             cats = [c for c in CATS if c in e]
             return bool(cats) and all(expected_form(self.rules[l], l, c, lemma, e[c]) is not None for c in cats) \
                 and norm_lemma(lemma) == lemma and lemma.isalpha()
-        both = [k for k in en if k in fr and good("en", k) and good("fr", k)]
-        only_en = [k for k in en if k not in fr and good("en", k)]
-        only_fr = [k for k in fr if k not in en and good("fr", k)]
-        self.pool = sorted(rng.sample(both, 6) + rng.sample(only_en, 6) + rng.sample(only_fr, 6))
+        def draw(keys, ok, n):
+            keys = list(keys)
+            rng.shuffle(keys)
+            out = []
+            for k in keys:
+                if ok(k):
+                    out.append(k)
+                    if len(out) == n:
+                        break
+            return out
+        both = draw([k for k in en if k in fr], lambda k: good("en", k) and good("fr", k), 6)
+        only_en = draw([k for k in en if k not in fr], lambda k: good("en", k), 6)
+        only_fr = draw([k for k in fr if k not in en], lambda k: good("fr", k), 6)
+        self.pool = sorted(both + only_en + only_fr)
         for f in FRESH:
             if f in en or f in fr:
                 raise core.Infra("fresh lemma %r exists in a lexicon" % f)
@@ -236,8 +254,11 @@ class Impl:
         self.pool_copy = {l: {k: copy.deepcopy(v) for k, v in self.pristine[l] if k in self.poolset} for l in ("en", "fr")}
         self.n_nonpool = {l: len(self.pristine[l]) - len(self.pool_copy[l]) for l in ("en", "fr")}
         self.rest_hash = {l: self.hash_rest(l) for l in ("en", "fr")}
-        self.pristine_nonpool = {l: [kv for kv in self.pristine[l] if kv[0] not in self.poolset] for l in ("en", "fr")}
+        self.nonpool_keys = {l: [k for k, _ in self.pristine[l] if k not in self.poolset] for l in ("en", "fr")}
+        self.nonpool_vals = {l: [v for k, v in self.pristine[l] if k not in self.poolset] for l in ("en", "fr")}
         self.dirty = True
+        gc.collect()
+        gc.freeze()      # the lexicons hold ~2M objects: keep the cyclic collector away from them
 
     def hash_rest(self, l):
         ps = self.poolset
@@ -309,6 +330,23 @@ class Impl:
 
     def ref_of(self, o):
         return self.ids.get(id(o), -1)
+
+    def assign_new(self, step, sl):
+        """dict objects seen for the first time in the slice were created by the call: they get the next reference
+        numbers, in the order in which the call is specified to create them (the items of updateLexicon in order)"""
+        order = {k: i for i, (k, _) in enumerate(step.get("items", []))} if step["t"] == "update" else {}
+        new = []
+        for li, l in enumerate(("en", "fr")):
+            lex = self.LEX.lexicon[l]
+            for k in sl:
+                if k in lex and id(lex[k]) not in self.ids:
+                    new.append((order.get(k, 0), li, k, lex[k]))
+        new.sort(key=lambda x: x[:3])
+        for _, _, _, o in new:
+            if id(o) not in self.ids:
+                self.ids[id(o)] = self.next_ref
+                self.objs[self.next_ref] = o       # kept alive: id() stays unique
+                self.next_ref += 1
 
     def obj(self, d):
         r = d["ref"]
@@ -414,6 +452,7 @@ class Impl:
                 o = self.LEX.lexicon[l][k]
                 self.objs[ref] = o
                 self.ids[id(o)] = ref
+        self.next_ref = len(init["en"]) + len(init["fr"])
         (self.P.loadEn if h["cur"] == "en" else self.P.loadFr)()
         before, keys_before = self.digest(sl)
         answers, frame = [], None
@@ -428,9 +467,11 @@ class Impl:
             elif "items" in step:
                 argc = [[d["ref"], self.items(self.obj(d))] for _, d in step["items"]]
             try:
-                r = self.enc_ret(self.call(step), sl, step)
+                raw, exc = self.call(step), None
             except Exception as e:  # noqa
-                r = {"err": type(e).__name__}
+                raw, exc = None, e
+            self.assign_new(step, sl)
+            r = {"err": type(exc).__name__} if exc is not None else self.enc_ret(raw, sl, step)
             after, keys_after = self.digest(sl)
             bset = [canon(x) for x in before]
             d = [[x[0], x[1], [x[2], x[3]]] for x in after if canon(x) not in bset]
@@ -471,7 +512,10 @@ class Impl:
         sl = set(h["lemmas"]) | {norm_lemma(k) for k in h["lemmas"]}
         for l in ("en", "fr"):
             lex = self.LEX.lexicon[l]
-            if [kv for kv in lex.items() if kv[0] not in ps] != self.pristine_nonpool[l]:
+            tmp = dict(lex)                     # C-speed copy, same order; drop the (few) pool keys and compare the rest
+            for k in ps:
+                tmp.pop(k, None)
+            if list(tmp) != self.nonpool_keys[l] or list(tmp.values()) != self.nonpool_vals[l]:
                 return {"step": i, "what": "an entry outside the pool changed in lexicon %s (keys, order or objects)" % l}
             if hashlib.md5(marshal.dumps(self.LEX.rules[l], 2)).hexdigest() != self.rules_hash[l] or self.LEX.rules[l] is not self.rules[l]:
                 return {"step": i, "what": "rules of %s changed" % l}
@@ -596,11 +640,6 @@ def oracle_history(W, h, init, answers):
             if term_agrees(pred, got):
                 continue
             detail = "expected %r got %s" % (pred, canon(got))
-            if tl != ref.cur:
-                for lm in (lemma, norm_lemma(lemma)):
-                    alt = predict_term(ref.lex, W.rules, ref.cur, cat, lm)
-                    if alt[0] == got.get("k") and (alt[0] != "found" or got.get("v") == ref.lex[ref.cur][lm][cat]):
-                        return {"sig": SIG_TLANG, "step": i, "detail": detail}
             if norm_lemma(lemma) != lemma:
                 alt = predict_term(ref.lex, W.rules, tl, cat, norm_lemma(lemma))
                 if alt[0] == got.get("k") and (alt[0] != "found" or got.get("v") == ref.lex[tl][norm_lemma(lemma)][cat]):
@@ -650,21 +689,8 @@ def oracle_history(W, h, init, answers):
                 where = "target" if (l == tl and wrong == [lem]) else ("other-lexicon" if l != tl else "other-entry")
                 detail = "lexicon %s lemma(s) %r: got %s expected %s" % (l, wrong, canon({k: state[l].get(k) for k in wrong}),
                                                                           canon({k: want.get(k) for k in wrong}))
-                if step["t"] in ("add", "addSingle") and where != "target" and a_shares(a, state, l, wrong):
-                    return {"sig": SIG_ALIAS, "step": i, "detail": detail}
                 return {"sig": "state:%s:%s" % (tag, where), "step": i, "detail": detail}
     return None
-
-
-def a_shares(a, state, l, wrong):
-    """the entries that changed although the call was not about them are the SAME dict object as the call's target:
-    the step's delta lists them with the reference number of the returned (target) object"""
-    r = a["ret"]
-    if not (isinstance(r, dict) and "dict" in r):
-        return False
-    target_ref = r["dict"][0]
-    refs = {(x[0], x[1]): x[2][0] for x in a["d"] if x[2] is not None}
-    return all(refs.get((l, k)) == target_ref for k in wrong)
 
 
 # ------------------------------------------------------------------------------------------------------------
@@ -672,26 +698,28 @@ def a_shares(a, state, l, wrong):
 # ------------------------------------------------------------------------------------------------------------
 
 def fixed_histories(W):
-    """the witnesses of the `_refuted` theorems, replayed on the real code on every run"""
+    """the witnesses of the `_refuted` theorems, replayed on the real code on every run (history 1 is the witness of the
+    aliasing defect repaired by 3c7823e, histories 2 and 3 of the terminal-language defect repaired by 8586a6a: kept
+    as regression tests)"""
     n1 = [["N", canon({"cnt": "yes", "tab": "n1"})]]
     a2 = [["A", canon({"tab": "a2"})]]
     frn = [["N", canon({"g": "m", "tab": "n3"})]]
     hs = [
         {"cur": "en", "stratum": "witness", "steps": [
-            {"t": "add", "lemma": "zorgly", "d": {"ref": 100, "init": n1}, "lang": "en"},
-            {"t": "add", "lemma": "zorgly", "d": {"ref": 100, "init": n1}, "lang": "fr"},
-            {"t": "add", "lemma": "zorgly", "d": {"ref": 101, "init": a2}, "lang": "en"},
+            {"t": "add", "lemma": "zorgly", "d": {"ref": 1000, "init": n1}, "lang": "en"},
+            {"t": "add", "lemma": "zorgly", "d": {"ref": 1000, "init": n1}, "lang": "fr"},
+            {"t": "add", "lemma": "zorgly", "d": {"ref": 1001, "init": a2}, "lang": "en"},
             {"t": "getLemma", "lemma": "zorgly", "lang": "fr"}]},
         {"cur": "en", "stratum": "witness", "steps": [
-            {"t": "add", "lemma": "zorgly", "d": {"ref": 100, "init": frn}, "lang": "fr"},
+            {"t": "add", "lemma": "zorgly", "d": {"ref": 1000, "init": frn}, "lang": "fr"},
             {"t": "term", "cat": "N", "lemma": "zorgly", "lang": "fr"}]},
         {"cur": "en", "stratum": "witness", "steps": [
-            {"t": "add", "lemma": "zorgly", "d": {"ref": 100, "init": n1}, "lang": "en"},
-            {"t": "add", "lemma": "zorgly", "d": {"ref": 101, "init": frn}, "lang": "fr"},
+            {"t": "add", "lemma": "zorgly", "d": {"ref": 1000, "init": n1}, "lang": "en"},
+            {"t": "add", "lemma": "zorgly", "d": {"ref": 1001, "init": frn}, "lang": "fr"},
             {"t": "remove", "lemma": "zorgly", "lang": "fr"},
             {"t": "term", "cat": "N", "lemma": "zorgly", "lang": "fr"}]},
         {"cur": "en", "stratum": "witness", "steps": [
-            {"t": "add", "lemma": "zœrgy", "d": {"ref": 100, "init": n1}, "lang": None},
+            {"t": "add", "lemma": "zœrgy", "d": {"ref": 1000, "init": n1}, "lang": None},
             {"t": "term", "cat": "N", "lemma": "zœrgy", "lang": None}]},
     ]
     for h in hs:
@@ -706,9 +734,11 @@ def gen_history(rng, W, stratum):
     lemmas = rng.sample(W.pool, min(k, len(W.pool))) + rng.sample(FRESH, rng.randint(1, 3))
     present = {l: {x for x in lemmas if x in W.pool_copy[l]} for l in ("en", "fr")}
     used_refs = []
-    next_ref = [100]
+    next_ref = [1000]
     init = W.init_slice(lemmas)
-    stored_refs = [r for l in ("en", "fr") for _, r, _ in init[l]]
+    # (a stored English entry with the top-level flag "ldv": true is not passed again: as a French entry it is ill-formed
+    #  — ConstituentFr.isElidableFr iterates over the categories — which is not this property's business)
+    stored_refs = [r for l in ("en", "fr") for _, r, e in init[l] if not any(c == "ldv" for c, _ in e)]
     ref_init = {r: e for l in ("en", "fr") for _, r, e in init[l]}     # the content an object had when first seen
 
     def lang_arg():
@@ -729,12 +759,10 @@ def gen_history(rng, W, stratum):
             cv = W.cand.get((L, c, lemma))
             if cv is None:
                 cv = W.cand[(L, c, lemma)] = candidate_vals(W.rules[L], L, c, lemma)
-            v = rng.choice(cv) if cv else {"tab": "n1" if c != "V" else "v1"}
-            items.append([c, canon(v)])
-        if rng.random() < 0.1:
-            items.append(["Adv", canon({"tab": "b1"})])
-        if rng.random() < 0.05:
-            items.insert(0, ["ldv", "true"])
+            if cv:                      # only well-formed values (a table of language L whose ending fits the lemma)
+                items.append([c, canon(rng.choice(cv))])
+        if rng.random() < 0.1 or not items:
+            items.append(["Adv", canon({"tab": "b1" if L == "en" else "av"})])
         return items
 
     def dict_arg(L, lemma):
@@ -823,8 +851,22 @@ def gen_history(rng, W, stratum):
 
 
 def to_line(W, h):
+    """the model sees a dict argument as a library object ({"obj": ref}: an initial entry passed again) or as a dict
+    of the caller ({"lit": content}; which Python object it is does not matter to the repaired code)"""
     init = W.init_slice(h["lemmas"])
-    return {"op": "hist", "cur": h["cur"], "en": init["en"], "fr": init["fr"], "steps": h["steps"]}, init
+    n_init = len(init["en"]) + len(init["fr"])
+
+    def arg(d):
+        return {"obj": d["ref"]} if d["ref"] < n_init else {"lit": d["init"]}
+    steps = []
+    for st in h["steps"]:
+        st = dict(st)
+        if "d" in st:
+            st["d"] = arg(st["d"])
+        if "items" in st:
+            st["items"] = [[k, arg(d)] for k, d in st["items"]]
+        steps.append(st)
+    return {"op": "hist", "cur": h["cur"], "en": init["en"], "fr": init["fr"], "steps": steps}, init
 
 
 def strip_term(a):
@@ -925,7 +967,7 @@ def shrink(W, driver, fail):
 
 def worker_main():
     job = json.load(sys.stdin)
-    W = Impl(job["pool_seed"])
+    W = Impl(job["pool_seed"], job.get("pool"))
     W.cand = {}
     rng = random.Random(job["seed"])
     if job.get("histories") is not None:
@@ -941,7 +983,10 @@ def worker_main():
     for f in res["fails"]:
         if f["sig"] not in best or len(canon(f["input"])) < len(canon(best[f["sig"]]["input"])):
             best[f["sig"]] = f
-    res["fails"] = [shrink(W, job["driver"], f) for f in best.values()] if job.get("shrink", True) else list(best.values())
+    if job.get("shrink", True):
+        res["fails"] = [dict(shrink(W, job["driver"], f), original=f) for f in best.values()]
+    else:
+        res["fails"] = list(best.values())
     if job.get("verbose"):
         res["trace"] = []
         for h in hists:
@@ -998,6 +1043,7 @@ def run(ctx, deep=False):
     results = collect([spawn(j) for j in jobs])
     dist = {}
     steps = 0
+    all_fails = []
     for r in results:
         ctx.cov["evaluations"] += r["n"]
         ctx.cov["traces_validated_against_impl"] += r["n"]
@@ -1010,16 +1056,33 @@ def run(ctx, deep=False):
         for d in r["diffs"]:
             ctx.diff(d["line"], {"step": d["first_differing_step"], "answer": d["model"]},
                      {"step": d["first_differing_step"], "answer": d["impl"]})
-        for f in r["fails"]:
-            ctx.fail(f["sig"], f["input"], f["detail"])
+        all_fails += r["fails"]
         for kk, v in r["dist"].items():
             dist[kk] = dist.get(kk, 0) + v
+    # a shrunk failing history is only reported if it fails the same way in a FRESH process (hidden state of a broken
+    # implementation may have carried over from earlier histories of the worker); else the unshrunk one is reported
+    best = {}
+    for f in all_fails:
+        if f["sig"] not in best or len(canon(f["input"])) < len(canon(best[f["sig"]]["input"])):
+            best[f["sig"]] = f
+    order = sorted(best)
+    vjobs = [{"seed": 0, "pool_seed": 0, "n": 0, "driver": ctx.driver, "histories": [best[sg]["input"]], "shrink": False,
+              "deep_ratio": 1.0, "pool": [k for k in best[sg]["input"]["lemmas"] if k not in FRESH]} for sg in order]
+    for sg, vr in zip(order, collect([spawn(j) for j in vjobs])):
+        f = best[sg]
+        if any(x["sig"] == sg for x in vr["fails"]) or "original" not in f:
+            ctx.fail(sg, f["input"], f["detail"])
+        else:
+            ctx.fail(sg, f["original"]["input"], f["original"]["detail"] + " (not reproducible after shrinking)")
     ctx.notes["distribution"] = dict(sorted(dist.items()))
     ctx.notes["steps_total"] = steps
     ctx.notes["pool"] = results[0]["pool"] + FRESH
-    ctx.notes["frame"] = "deep hash of all non-pool entries + rules after every history; after every step on %d histories" % sum(
-        r["frame_checks_per_step"] for r in results)
-    ctx.notes["refuted_clauses_replayed"] = "the four witness histories of the _refuted theorems run first in worker 0"
+    ctx.notes["frame"] = ("after every step: key count, lexicon/rules object identity; after every history: keys, order and "
+                          "objects of all non-pool entries, rules by content, unmentioned pool lemmas by content; after every "
+                          "step on %d histories; deep content hash of all non-pool entries on those and once per worker after "
+                          "all its histories (a history-by-history deep pass follows if it fails)" % sum(
+                              r["frame_checks_per_step"] for r in results))
+    ctx.notes["refuted_clauses_replayed"] = "the witness histories of the (former and current) _refuted theorems run first in worker 0"
 
 
 def search(ctx):
@@ -1030,7 +1093,7 @@ def replay(path):
     d = json.load(open(path, encoding="utf-8"))
     h = d["input"]["input"] if isinstance(d.get("input"), dict) and "input" in d["input"] else d["input"]
     job = {"seed": 0, "pool_seed": 0, "n": 0, "driver": META["driver"], "histories": [h], "verbose": True, "shrink": False,
-           "deep_ratio": 1.0}
+           "deep_ratio": 1.0, "pool": [k for k in h["lemmas"] if k not in FRESH]}
     r = collect([spawn(job)])[0]
     t = r["trace"][0]
     print("history (cur=%s):" % h["cur"])
